@@ -59,6 +59,12 @@ pub fn analyze_encoding(array: &dyn Array) -> VectorEncoding {
 
 /// Check if all values in the array are identical
 fn is_constant(array: &dyn Array) -> bool {
+    // The constant encoding stores a single non-null scalar, so an array that
+    // contains NULLs cannot be represented by it.
+    if array.null_count() > 0 {
+        return false;
+    }
+
     if array.len() <= 1 {
         return true;
     }
